@@ -35,6 +35,10 @@ THEOREMS = [
     "PorepyVerif.C08.data_set_is_store_step",
     "PorepyVerif.C08.data_get_is_store_step",
     "PorepyVerif.C08.data_shift_is_store_step",
+    "PorepyVerif.C08.window_any_sequence",
+    "PorepyVerif.C08.window_any_sequence_depth",
+    "PorepyVerif.C08.unshift_refines",
+    "PorepyVerif.C08.unshift_after_shift",
     "PorepyVerif.C08.es_set_get_roundtrip",
     "PorepyVerif.C08.es_set_blocks",
     "PorepyVerif.C08.es_set_wrong_size",
@@ -62,7 +66,9 @@ RULE = ("histories of 3-40 calls; two layers: 'utils' = ad_utils.set/get/shift_s
         "case (70%) or varying; 30% of the cases are the model pattern (shift(depth); write index 0)* with overwrite or additive "
         "writes; the rest are free interleavings incl. writes at indices > 0 (holes), max_index None / 0 / negative, unsupported "
         "location, both / no / negative indices, reads of empty slots, additive writes to empty slots; values are small dyadic "
-        "rationals (binary64 exact). non-trivial = at least two shifts, one read at an index >= 1 and one additive write; "
+        "rationals (binary64 exact). Strata (counted in input_distribution): free / model-pattern / bc-time-loop (40% of the es cases also "
+        "carry 1-2 quantities on the boundary grid: BoundaryConditionMixin.update_boundary_condition with depth 0-4, "
+        "SolutionStrategy._revert_time_dependent_boundary_values, direct helper calls on the boundary data) / wrong-size vectors. non-trivial = at least two shifts, one read at an index >= 1 and one additive write; "
         "distinct = distinct op sequences")
 TRUSTED = [
     "modelled, not verified: numpy ndarray.copy / in-place += / slicing / concatenate; Python dict semantics of data[loc][name] "
@@ -76,6 +82,10 @@ TRUSTED = [
     "EquationSystem wrappers: modelled (esSet / esGet / esShift over the list of blocks of _variable_numbers in global order); the "
     "harness supplies that list (creation order on one grid; C05 proves the layout in general, layoutOf ties the two models) and resolves "
     "_parse_variable_type (None / str / Variable / md-variable -> names)",
+    "boundary values: update_boundary_condition / _revert_time_dependent_boundary_values are modelled on ONE boundary data dictionary "
+    "(bcUpdate, bcRevert; the loop over mdg.boundaries() is not); they are called on the real classes with a stub `self` (mdg, "
+    "time_step_indices); the revert moves arrays by reference and deletes the last slot - that this leaves no sharing is checked by the "
+    "oracle (np.shares_memory), not by the heap model",
 ]
 EXPLANATION = (
     "FULL for the storage logic: the model is the dict index->array with set/add/get/shift exactly as branched in shift_solution_values "
@@ -88,7 +98,12 @@ EXPLANATION = (
     "separation invariant (no two slots share an array, no slot shares one with the caller) is proved for all histories, the value-level model "
     "is proved to be its faithful abstraction, and the seeded no-copy variants are refuted by concrete histories. Correspondence compares every "
     "output, error kind and the final store contents exactly; the oracle checks the sliding-window statement and the separation invariant "
-    "(np.shares_memory) directly on the real code.")
+    "(np.shares_memory) directly on the real code. Clause map: 'any sequence of writes (overwrite or additive) and shifts with a maximum depth: "
+    "index i = i-th most recent value written at index 0, i < depth' = window_any_sequence (+ window_any_sequence_depth, window_ith, "
+    "window_additive, store_refines_window); 'reads return copies that later writes do not alter' = get_returns_stable_copy, held_stable, "
+    "heap_run_refines on the heap model (numpy .copy() itself: oracle); 'additive writes to an empty slot are rejected' = add_empty_rejected; "
+    "'through both the data-dictionary helpers and the equation-system wrappers' = data_*_is_store_step, es_set_get_roundtrip, es_set_blocks, "
+    "es_shift_simultaneous; neighbouring entry point un-shift = unshift_refines, unshift_after_shift.")
 ASSUMPTIONS = [
     "values are exact in binary64 (dyadic generator, <= 40 additions) so that the rational model and the float implementation agree exactly",
     "arrays written to one name always have the same length (numpy broadcasting of += on mismatching shapes is not modelled)",
@@ -165,6 +180,10 @@ def gen_case(rng, tier):
         names = [v[0] for v in vars_]
         sizes = {v[0]: nx * v[1] for v in vars_}
         case = {"mode": mode, "nx": nx, "vars": vars_, "sizes": sizes}
+        if rng.random() < 0.4:  # stratum: time-dependent boundary values on the boundary grid (update / revert)
+            case["bc"] = ["u"] if rng.random() < 0.7 else ["u", "w"]
+            for b in case["bc"]:
+                sizes[b] = 2 * nx + 2
     depth = rng.randint(1, 4)
     fixed_depth = rng.random() < 0.7
     nmax = 40
@@ -178,6 +197,39 @@ def gen_case(rng, tier):
 
     def raw_set(name, ts, it, additive):
         return {"op": "set", "name": name, "values": _vec(rng, sizes[name]), "ts": ts, "it": it, "additive": additive, "keep": keep()}
+
+    bc = case.get("bc", [])
+
+    def bc_op():
+        b = rng.choice(bc)
+        q = rng.random()
+        if q < 0.55:
+            return {"op": "bc_update", "name": b, "values": _vec(rng, sizes[b]), "depth": cur_depth() if rng.random() < 0.95 else 0, "keep": keep()}
+        if q < 0.75:
+            return {"op": "bc_revert"}
+        j = rng.choice([0, 0, 1, 1, 2, 3])
+        ts, it = (j, None) if rng.random() < 0.6 else (None, j)
+        if q < 0.90:
+            return {"op": "get", "name": b, "ts": ts, "it": it, "keep": keep(), "bd": True}
+        if q < 0.96:
+            return dict(raw_set(b, ts, it, rng.random() < 0.5), bd=True)
+        return {"op": "shift", "name": b, "loc": rng.choice([TS, IT]), "max": rng.choice([None, 1, 2, 3]), "bd": True}
+
+    if bc and rng.random() < 0.35:
+        # stratum: the time loop on boundary values: update per time step, a rejected step = revert followed by update
+        for k in range(rng.randint(2, 10)):
+            b = rng.choice(bc)
+            m = cur_depth()
+            ops.append({"op": "bc_update", "name": b, "values": _vec(rng, sizes[b]), "depth": m, "keep": keep()})
+            if rng.random() < 0.35:
+                ops.append({"op": "bc_revert"})
+                if rng.random() < 0.8:
+                    ops.append({"op": "bc_update", "name": b, "values": _vec(rng, sizes[b]), "depth": m, "keep": keep()})
+            for _ in range(rng.choice([0, 1, 2])):
+                j = rng.randint(0, 3)
+                ts, it = (j, None) if rng.random() < 0.7 else (None, 0)
+                ops.append({"op": "get", "name": b, "ts": ts, "it": it, "keep": keep(), "bd": True})
+        return _finish(rng, dict(case, ops=ops[:40], stratum="bc-time-loop"), names, sizes)
 
     pattern = rng.random() < 0.3
     if pattern:
@@ -205,13 +257,16 @@ def gen_case(rng, tier):
                     ops.append({"op": "es_get", "vars": _gen_selector(rng, names), "ts": idx2[0], "it": idx2[1], "keep": keep()})
                 else:
                     ops.append({"op": "get", "name": rng.choice(names), "ts": idx2[0], "it": idx2[1], "keep": keep()})
-        return _finish(rng, dict(case, ops=ops[:40]), names, sizes)
+        return _finish(rng, dict(case, ops=ops[:40], stratum="model-pattern"), names, sizes)
 
     nops = rng.randint(3, nmax)
     for k in range(nops):
         r = rng.random()
         es_level = mode == "es" and rng.random() < 0.75
         name = rng.choice(names)
+        if bc and rng.random() < 0.3:
+            ops.append(bc_op())
+            continue
         if k < 2 and r > 0.15:
             r = 0.5  # start with writes at index 0
         if r < 0.30:  # shift
@@ -258,7 +313,7 @@ def gen_case(rng, tier):
                 ops.append({"op": "es_get", "vars": _gen_selector(rng, names), "ts": ts, "it": it, "keep": keep()})
             else:
                 ops.append({"op": "get", "name": name, "ts": ts, "it": it, "keep": keep()})
-    return _finish(rng, dict(case, ops=ops), names, sizes)
+    return _finish(rng, dict(case, ops=ops, stratum="free"), names, sizes)
 
 
 # ----------------------------------------------------------------------------- dissection of equation-system calls
@@ -304,6 +359,8 @@ class _Impl:
             for name, k in case["vars"]:
                 self.md[name] = self.es.create_variables(name, {"cells": k}, subdomains=mdg.subdomains())
             self.data = mdg.subdomain_data(mdg.subdomains()[0])
+            self.mdg = mdg
+            self.bdata = [d for _, d in mdg.boundaries(return_data=True)][0]
 
     def _sel(self, sel):
         if sel is None:
@@ -329,21 +386,37 @@ class _Impl:
         """returns "ok" | ("val", ndarray copy) | {"err": kind}"""
         pp = self.pp
         o = op["op"]
+        data = self.bdata if op.get("bd") else self.data
         try:
+            if o == "bc_update":
+                from types import SimpleNamespace
+
+                arr = np.array([float(Fraction(v)) for v in op["values"]])
+                stub = SimpleNamespace(mdg=self.mdg, time_step_indices=np.arange(op["depth"]))
+                try:
+                    pp.BoundaryConditionMixin.update_boundary_condition(stub, op["name"], lambda bg: arr)
+                finally:
+                    self._after(arr, op, k, "array returned by the boundary value function")
+                return "ok"
+            if o == "bc_revert":
+                from types import SimpleNamespace
+
+                pp.SolutionStrategy._revert_time_dependent_boundary_values(SimpleNamespace(mdg=self.mdg))
+                return "ok"
             if o == "set":
                 arr = np.array([float(Fraction(v)) for v in op["values"]])
                 try:
-                    pp.set_solution_values(op["name"], arr, self.data, time_step_index=op["ts"], iterate_index=op["it"], additive=op["additive"])
+                    pp.set_solution_values(op["name"], arr, data, time_step_index=op["ts"], iterate_index=op["it"], additive=op["additive"])
                 finally:
                     self._after(arr, op, k, "array passed to set_solution_values")
                 return "ok"
             if o == "get":
-                r = pp.get_solution_values(op["name"], self.data, time_step_index=op["ts"], iterate_index=op["it"])
+                r = pp.get_solution_values(op["name"], data, time_step_index=op["ts"], iterate_index=op["it"])
                 res = ("val", np.array(r, dtype=float, copy=True))
                 self._after(r, op, k, "array returned by get_solution_values")
                 return res
             if o == "shift":
-                pp.shift_solution_values(op["name"], self.data, op["loc"], op["max"])
+                pp.shift_solution_values(op["name"], data, op["loc"], op["max"])
                 return "ok"
             if o == "es_set":
                 arr = np.array([float(Fraction(v)) for v in op["values"]])
@@ -365,11 +438,18 @@ class _Impl:
             return err_kind(e)
         raise ValueError(o)
 
+    def datas(self):
+        return [self.data] + ([self.bdata] if self.es is not None else [])
+
+    def data_of(self, name):
+        return self.bdata if name in self.case.get("bc", []) else self.data
+
     def dump(self):
         out = []
-        for loc in (TS, IT):
-            for name, dct in self.data.get(loc, {}).items():
-                out.append([loc, name, [[int(i), [frac(x) for x in np.asarray(dct[i], dtype=float).ravel()]] for i in sorted(dct)]])
+        for data in self.datas():
+            for loc in (TS, IT):
+                for name, dct in data.get(loc, {}).items():
+                    out.append([loc, name, [[int(i), [frac(x) for x in np.asarray(dct[i], dtype=float).ravel()]] for i in sorted(dct)]])
         return sorted(out)
 
 
@@ -410,7 +490,7 @@ def model_ops(case):
 def model_decode(outs, case):
     outs = outs[1:] if case["mode"] == "es" else outs
     res = list(outs[:-1])
-    res.append(sorted([d["loc"], d["name"], sorted(d["entries"], key=lambda e: e[0])] for d in outs[-1]))
+    res.append(sorted([d["loc"], d["name"], sorted(d["entries"], key=lambda e: e[0])] for d in outs[-1]["main"] + outs[-1]["bd"]))
     return res
 
 
@@ -542,6 +622,54 @@ class _Ref:
         return exps
 
 
+def _ref_bc_update(ref, op, is_err):
+    """update_boundary_condition in window terms: time-step window := (current iterate value) pushed with depth m; iterate := new values"""
+    s_it, s_ts = ref.st(IT, op["name"]), ref.st(TS, op["name"])
+    vals = [Fraction(x) for x in op["values"]]
+    e = s_it.get(0)
+    if e[0] == "unknown":
+        s_it.lose(); s_ts.lose()
+        if not is_err:
+            s_it.set(0, vals)
+        return None
+    if e[0] == "err":
+        if is_err:
+            return None  # the name was registered with nothing stored (KeyError of the read): no state change
+        cur = vals  # nothing stored yet: initialisation with the new values
+    else:
+        cur = e[1]
+    if is_err:
+        if s_ts.irregular:
+            s_it.lose(); s_ts.lose()
+            return None
+        return _fail(f"update_boundary_condition({op['name']}, depth={op['depth']}) raised on a hole-free history", "bc-update-raises")
+    s_ts.shift(op["depth"])
+    s_ts.set(0, cur)
+    s_it.set(0, vals)
+    return None
+
+
+def _ref_bc_revert(ref, names, is_err):
+    """_revert_time_dependent_boundary_values in window terms: iterate := head of the time-step window, window := its tail"""
+    odd = [n for n in names if ref.st(TS, n).irregular or ref.st(IT, n).irregular or (ref.st(TS, n).w and not ref.st(IT, n).w)]
+    if is_err:
+        if not odd:
+            return _fail("_revert_time_dependent_boundary_values raised on hole-free histories", "bc-revert-raises")
+        for n in names:
+            ref.st(TS, n).lose(); ref.st(IT, n).lose()
+        return None
+    for n in names:
+        s_it, s_ts = ref.st(IT, n), ref.st(TS, n)
+        if n in odd:
+            s_it.lose(); s_ts.lose()
+            continue
+        if not s_ts.w:
+            continue
+        s_it.w[0] = s_ts.w[0]
+        s_ts.w = s_ts.w[1:]
+    return None
+
+
 def _fail(what, key):
     return {"what": what, "key": key}
 
@@ -557,6 +685,16 @@ def oracle(case):
     for k, op in enumerate(case["ops"]):
         outcome = im.call(k, op)
         is_err = isinstance(outcome, dict)
+        if op["op"] == "bc_update":
+            r = _ref_bc_update(ref, op, is_err)
+            if r:
+                return r
+            continue
+        if op["op"] == "bc_revert":
+            r = _ref_bc_revert(ref, case.get("bc", []), is_err)
+            if r:
+                return r
+            continue
         if op.get("wrong_size"):
             # outside the property (arrays of the wrong length get stored before the assertion fails): compared with the model only
             for n in _sel_names(op["vars"], _names(case)):
@@ -624,7 +762,7 @@ def oracle(case):
             for i, want in sorted(s.slots().items()):
                 kw = {"time_step_index": i} if loc == TS else {"iterate_index": i}
                 try:
-                    got = [Fraction(float(x)) for x in im.pp.get_solution_values(name, im.data, **kw)]
+                    got = [Fraction(float(x)) for x in im.pp.get_solution_values(name, im.data_of(name), **kw)]
                 except Exception as e:  # noqa: BLE001
                     return _fail(f"{tag}: {loc}[{name}][{i}] raised {type(e).__name__}", key)
                 if got != want:
@@ -641,11 +779,12 @@ def oracle(case):
         """the separation invariant of the heap model on the real objects: no two slots share memory, no slot shares memory
         with an array the caller passed in or got back"""
         slots = []
-        for loc in (TS, IT):
-            for name, dct in im.data.get(loc, {}).items():
-                for i, a in dct.items():
-                    if isinstance(a, np.ndarray):
-                        slots.append((f"{loc}[{name}][{i}]", a))
+        for data in im.datas():
+            for loc in (TS, IT):
+                for name, dct in data.get(loc, {}).items():
+                    for i, a in dct.items():
+                        if isinstance(a, np.ndarray):
+                            slots.append((f"{loc}[{name}][{i}]", a))
         for x in range(len(slots)):
             for y in range(x + 1, len(slots)):
                 if np.shares_memory(slots[x][1], slots[y][1]):
@@ -663,7 +802,7 @@ def oracle(case):
         for i in sorted(s.slots()):
             one = np.ones(sizes[name])
             kw = {"time_step_index": i} if loc == TS else {"iterate_index": i}
-            im.pp.set_solution_values(name, one, im.data, additive=True, **kw)
+            im.pp.set_solution_values(name, one, im.data_of(name), additive=True, **kw)
             s.add(i, [Fraction(1)] * sizes[name])
             r = kept_ok(f"after += 1 on {loc}[{name}][{i}]") or reread(f"after += 1 on {loc}[{name}][{i}]", "poke-altered-other-slot")
             if r:
@@ -758,6 +897,9 @@ def stats(cases, impl_outs):
     c = Counter()
     for case, out in zip(cases, impl_outs):
         c["mode:" + case["mode"]] += 1
+        c["stratum:" + case.get("stratum", "corpus")] += 1
+        if case.get("bc"):
+            c["cases_with_boundary_values"] += 1
         for op in case["ops"]:
             c["op:" + op["op"]] += 1
             if op["op"] in ("shift", "es_shift"):
@@ -766,6 +908,10 @@ def stats(cases, impl_outs):
                 c["additive_writes"] += 1
             if op.get("wrong_size"):
                 c["wrong_size_vectors"] += 1
+            if op.get("bd"):
+                c["direct_calls_on_boundary_data"] += 1
+            if op["op"] == "bc_update" and op["depth"] == 0:
+                c["bc_update_depth_0"] += 1
             if op["op"] in ("set", "es_set") and op["ts"] is not None and op["it"] is not None:
                 c["writes_both_locations"] += 1
         if isinstance(out, list):
